@@ -90,6 +90,10 @@ def impl(op, a):
     return lib.canon(o.value) if o.ok else E(lib.err_code(o))
 
 
+_impl_plain = impl
+impl = lib.with_bytearray_variant(_impl_plain, ["aarq_from_bytes", "aare_from_bytes", "rlrq_from_bytes", "rlre_from_bytes"])
+
+
 def wellformed(b, depth=0, constructed_tags=(0x60, 0x61, 0x62, 0x63, 0xA1, 0xA2, 0xA3, 0xA4, 0xA5, 0xA6, 0xA7, 0xAA, 0xAC, 0xBE)):
     """independent judge: a sequence of definite-length TLVs that exactly fills b; constructed ones recursively.
        Components the library treats as opaque byte strings (called-AP-title ... 0xA2-0xA9 in an AARQ) are not entered."""
@@ -151,6 +155,12 @@ def gen_values(ctx):
             if mask >> j & 1:
                 a[6 + j] = rb(r.choice([0, 1, 3, 9]))
         out.append(("aarq", a))
+    # values that end / begin with NUL or blank bytes or consist of them: no layer may trim a title, password or challenge
+    PAD = [b"\x00", b"abc\x00", b"\x00\x00abc", b"abc\x00\x00\x00", bytes(8), b" pw ", b"pw\n", b"\x00" * 16, b"12345678\x00", b"\xff\x00"]
+    for v in PAD:
+        for m in (1, 5):
+            a = base_q(); a[3], a[5], a[1] = m, v, r.choice([None, v[:8].ljust(8, b"\x00")]); out.append(("aarq", a))
+            e = [0, [False, 0], False, m, r.choice([None, v[:8].ljust(8, b"\x00")]), None, v, iresp(), None, None, None]; out.append(("aare", e))
     # ---- AARE
     base_e = lambda: [0, [False, 0], False, None, None, None, None, iresp(), None, None, None]
     for res in [int(x) for x in en.AssociationResult]:
@@ -227,6 +237,21 @@ def run(ctx):
             mal.append((f"{k}_from_bytes", bytes([tag, len(body)]) + body))
         mal += [(f"{k}_from_bytes", x) for x in (b"", bytes([tag]), bytes([tag, 0]), bytes([tag, 0x81, 0]), bytes([tag, 0x80]), bytes([tag, 2, 0x80, 0]), bytes([tag, 2, 0xBE, 0]))]
     ctx.corr(cases + mal, impl, "from_bytes", decisive=lambda op, a: True, skip_model=lambda m: m == E(98))
+    # ---- search: an APDU object that was encoded once and whose fields are then changed encodes like a fresh object
+    by_kind = {}
+    for k, v in vals:
+        by_kind.setdefault(k, []).append(v)
+    for k, lst in by_kind.items():
+        step = max(1, len(lst) // ctx.scale(150, 1500))
+        picks = lst[::step]
+        for v1, v2 in zip(picks, picks[1:] + picks[:1]):
+            res = lib.encode_after_field_change(lambda v: build(k, v), v1, v2)
+            if res is None:
+                continue
+            ctx.tried("encode_after_field_change", key=k + lib.v_text(v1)[:100] + lib.v_text(v2)[:100])
+            if lib.v_text(res[0]) != lib.v_text(res[1]):
+                ctx.fail("encoding_stale_after_field_change", {"kind": k, "first": lib.v_text(v1)[:3000], "then": lib.v_text(v2)[:3000]},
+                         lib.v_text(res[1])[:200], lib.v_text(res[0])[:200])
     # ---- search: standard bytes, well-formed BER, inverse law, authentication components
     spec = lib.run_model([(f"spec_{k}", v) for k, v in vals])
     for (k, v, b), sb in zip(enc, spec):
@@ -277,6 +302,11 @@ CLASSIFIERS = {
 
 
 def replay(ctx, rp):
+    if "then" in rp["case"]:
+        c = rp["case"]
+        res = lib.encode_after_field_change(lambda v: build(c["kind"], v), lib.v_parse(c["first"]), lib.v_parse(c["then"]))
+        print("re-used object:", lib.v_text(res[0])[:200], "\nfresh object  :", lib.v_text(res[1])[:200])
+        return lib.v_text(res[0]) != lib.v_text(res[1])
     c = rp["case"]
     if not c.get("value"):
         return True
